@@ -47,7 +47,7 @@ def body(c):
     cfg = c.path("Gen.cfg")
     with open(cfg, "w") as f:
         f.write("CONSTANT Universes = {%s}\nINIT Init\nNEXT Next\nINVARIANT Emit\n" % ", ".join('"%s"' % u for u in universes))
-    g = vlib.run_tlc("gql/Gen_SchemaCheck.tla", cfg, workers=8, timeout=1800, keep_lines=50, xmx="8g")
+    g = vlib.run_tlc("gql/Gen_SchemaCheck.tla", cfg, workers=4, timeout=1800, keep_lines=50, xmx="8g")
     c.add_tlc("G builder machine, universes " + ",".join(universes), g)
     mt.join()
     if "e" in mres:
@@ -92,7 +92,7 @@ def body(c):
         raise vlib.ToolError("harness wrote %d observations for %d cases" % (len(obs), len(cases)))
     vlib.write_ndjson(c.path("trace_v.ndjson"), [{"id": o["id"], "ts": o["ts"], "ok": o["ok"], "panic": o["panic"]} for o in obs])
     v = vlib.run_tlc("gql/SchemaCheckTrace.tla", "gql/SchemaCheckTrace.cfg", env={"TRACE": c.path("trace_v.ndjson")},
-                     workers=8, timeout=3000, keep_lines=50, xmx="8g")
+                     workers=4, timeout=3000, keep_lines=50, xmx="8g")
     stage("V")
     c.notes.append({"stage_wall_s": stages})
     verdicts = {t[1]: (t[2], [], []) for t in v.tagged("VERDICT")}
